@@ -93,3 +93,26 @@ Theorem C14_source_import_iteration : forall req_ok rt_ok transport warn read_ok
   = Some (import_spec (mkIm req_ok rt_ok 200 transport warn read_ok copy_ok close_ok)).
 Proof. exact tie_import_iteration. Qed.
 Print Assumptions C14_source_import_iteration.
+
+(* recursiveTypeHash: pointers dereferenced first; a type already met contributes nothing more; otherwise by kind — struct:
+   every exported field its name (unless embedded) then its type, recursively, with the same hasher and visited set; slice /
+   array: element type; map: key type then element type; else its name *)
+Theorem C14_source_recursive_type_hash : forall met k exported anonymous,
+  run_rth met k =
+  Some ([("dereference pointers", [])] ++
+        (if met then []
+         else [("assign met[t]", [VB true])] ++
+              match k with
+              | KStruct => [("for each field", [])]
+              | KSlice | KArray => [("recurse with the same hasher and visited set", [VPtr true "element type"])]
+              | KMap => [("recurse with the same hasher and visited set", [VPtr true "key type"]);
+                         ("recurse with the same hasher and visited set", [VPtr true "element type"])]
+              | KOther => [("hash", [VStr "name of the type"])]
+              end))%list /\
+  run_field exported anonymous =
+  Some (if exported
+        then ((if anonymous then [] else [("hash", [VStr "Name"])]) ++
+              [("recurse with the same hasher and visited set", [VPtr true "type of the field"])], false)%list
+        else ([], true)).
+Proof. intros; split; [exact (tie_recursive_type_hash _ _)|exact (tie_type_hash_field _ _)]. Qed.
+Print Assumptions C14_source_recursive_type_hash.
